@@ -57,11 +57,14 @@ const (
 	fUnknownHash
 	fNoHash    // extension with a version but no hash, no text
 	fNoVersion // extension with the hash but no version, no text
+	fNoHashText     // text + extension with a version but no hash: refused, registers nothing
+	fBlankTextHash  // white-space-only text + the hash of another text: refused (not a hash-only request)
+	fPaddedTextHash // text with leading/trailing white space + the hash of exactly those bytes: executes
 	numForms
 )
 
 func (f form) String() string {
-	return [...]string{"text", "text+hash", "text+wrong-hash", "hash-only", "malformed-ext", "wrong-version", "unknown-hash-only", "no-hash", "no-version"}[f]
+	return [...]string{"text", "text+hash", "text+wrong-hash", "hash-only", "malformed-ext", "wrong-version", "unknown-hash-only", "no-hash", "no-version", "text+no-hash", "blank-text+hash", "padded-text+hash"}[f]
 }
 
 type op struct {
@@ -153,8 +156,11 @@ func step(state int, o op, out outcome) (bool, int) {
 		return out.Kind == "exec" && out.Text == o.Text, state
 	case fTextHash:
 		return out.Kind == "exec" && out.Text == o.Text, state | 1<<o.Text
-	case fTextWrongHash, fMalformed, fWrongVersion:
+	case fTextWrongHash, fMalformed, fWrongVersion, fNoHashText, fBlankTextHash:
 		return out.Kind == "rejected", state
+	case fPaddedTextHash:
+		// registers the padded bytes under their own hash, which no other form asks for
+		return out.Kind == "exec" && out.Text == o.Text, state
 	case fHashOnly:
 		if out.Kind == "notfound" {
 			return true, state // eviction is always legal
@@ -274,6 +280,15 @@ func Run(rc *core.RunCtx) {
 				}
 			}
 		}
+		if o.Form == fBlankTextHash {
+			// the hash of a text registered earlier in the history, when there is one
+			for j := i - 1; j >= 0; j-- {
+				if opsList[j].Form == fTextHash {
+					o.Hash = opsList[j].Text
+					break
+				}
+			}
+		}
 		opsList[i] = o
 	}
 
@@ -305,6 +320,18 @@ func Run(rc *core.RunCtx) {
 		case fNoVersion:
 			query = ""
 			ext = map[string]any{"persistedQuery": map[string]any{"sha256Hash": hashOf(texts[o.Text])}}
+		case fNoHashText:
+			if o.Text%2 == 0 {
+				ext = map[string]any{"persistedQuery": map[string]any{"version": 1}}
+			} else {
+				ext = map[string]any{"persistedQuery": map[string]any{"version": 1, "sha256Hash": ""}}
+			}
+		case fBlankTextHash:
+			query = []string{" ", "\n", " \t\n "}[o.Text%3]
+			ext = map[string]any{"persistedQuery": map[string]any{"version": 1, "sha256Hash": hashOf(texts[o.Hash])}}
+		case fPaddedTextHash:
+			query = []string{" ", "\n"}[o.Text%2] + texts[o.Text] + []string{"\n", "  "}[o.Hash%2]
+			ext = map[string]any{"persistedQuery": map[string]any{"version": 1, "sha256Hash": hashOf(query)}}
 		case fMalformed:
 			if o.Text%2 == 0 {
 				ext = map[string]any{"persistedQuery": "not-an-object"}
